@@ -60,7 +60,12 @@ def replay(cases):
                 elif name == "droplast":
                     res = src < a1
                 elif name == "remove":
-                    src.removeObsList(sorted(a1))
+                    # the designated SET of positions is handed over in an order that varies with the case: ascending,
+                    # descending, or rotated (the documented behaviour does not depend on the order of the list)
+                    lst = sorted(a1)
+                    k = (sum(lst) + len(T) + len(lst)) % 3
+                    lst = lst if k == 0 else (lst[::-1] if k == 1 else lst[len(lst) // 2:] + lst[:len(lst) // 2])
+                    src.removeObsList(lst)
                     res = src
                 elif name == "concat":
                     other = build(list(reversed(T)), first_id=n + 1)
